@@ -396,7 +396,7 @@ func init() {
 func init() {
 	register("C30", "Expand mirrors the rewrite and the directly assigned users", func(e *Engine, r *Reporter) {
 		ruleExpand(e, r)
-		ruleReadSitesFiltered(e, r, map[string]bool{"expand": true}, 2)
+		ruleReadSitesFiltered(e, r, map[string]bool{"expand": true}, 1)
 		ruleMutatingCommandPerRequest(e, r)
 		ruleCancelIsNotEndOfData(e, r)
 	})
